@@ -278,3 +278,9 @@ pub fn plain_year_month_new_unchecked(iso: IsoDate, calendar: Calendar) -> Plain
 pub fn plain_month_day_new_unchecked(iso: IsoDate, calendar: Calendar) -> PlainMonthDay {
     PlainMonthDay::new_unchecked(iso, calendar)
 }
+
+// ==== time zones ====
+
+pub fn utc_offset_from_minutes(minutes: i16) -> crate::UtcOffset {
+    crate::UtcOffset(minutes)
+}
